@@ -8,7 +8,8 @@ One output line per input line:  M<TAB>S<TAB>G<TAB>T
   T = branch tags (coverage accounting)
 -/
 import DtailModel.Generated.Code
-import DtailModel.Lemmas.GenAggregate
+import DtailModel.Model.AggregateOps
+import DtailModel.Model.OutfileOps
 import DtailModel.Model.Hex
 import DtailModel.Model.GlobID
 import DtailModel.Model.Wire
@@ -851,6 +852,18 @@ def fileStr (fs : FS) (p : Bytes) : String := match fsGet fs p with | none => "n
 def stateStr (fs : FS) (path : Bytes) : String :=
   s!"out={fileStr fs path};tmp={fileStr fs (path ++ TMP)};query={fileStr fs (path ++ QUERYEXT)};qtmp={fileStr fs (path ++ QUERYEXT ++ TMP)}"
 
+/-- tie G: `GroupSet.WriteResult` as translated from the working tree on this run, on the same request: the file operations it
+    records (none of them failing, `os.Stat` answering for `fs0`) as operations of the model -/
+def c15translated (fs0 : FS) (r : OutReq) : Option (List FOp) :=
+  let stat : Go.GoString → Go.GoFileInfo × Go.GoErr := fun p => match fsGet fs0 p with
+    | some c => (⟨c.length⟩, none)
+    | none => ({}, some [])
+  let ext : Go.Ext := { parseFloat := fun _ => (0, none), rowValues := r.rows, osStat := stat }
+  let q : Gen.Outfile.Query := { Select := r.header.map (fun h => ⟨h⟩), Limit := r.limit, Outfile := some ⟨r.path, r.append⟩, RawQuery := r.rawQuery }
+  match Gen.Outfile.GroupSet.WriteResult ext {} q r.final with
+  | .ok (g, none) => some (g.ops.filterMap GenOutfile.toFOp)
+  | _ => none
+
 def opC15Write : List String → Res
   | qh :: groups :: final :: pre :: kill :: rest => match unhex qh, parseGroups groups with
     | some qt, some gs =>
@@ -868,6 +881,7 @@ def opC15Write : List String → Res
           let fs0 : FS := (if preOut = "none" then [] else [(path, (unhex preOut).getD [])])
             ++ (if preTmp = "none" then [] else [(path ++ TMP, (unhex preTmp).getD [])])
           let ops := writeResultOps fs0 r
+          let genBad := c15translated fs0 r != some ops
           let old := fsGet fs0 path
           let okState (fs : FS) : Bool :=
             if r.append then
@@ -880,7 +894,7 @@ def opC15Write : List String → Res
             let specOut : String :=
               if r.append then hexOf appendSpec
               else if r.final then hexOf (completeResult r) else (match old with | none => "none" | some o => if o.isEmpty then "-" else hexOf o)
-            { m := s!"ops={joinWith " " (ops.map (renderOp path))};{stateStr fs path}",
+            { m := if genBad then "TRANSLATED-WRITERESULT-DIFFERS-FROM-MODEL" else s!"ops={joinWith " " (ops.map (renderOp path))};{stateStr fs path}",
               s := specOut,
               t := joinWith "," ((if r.append then ["append"] else ["replace"]) ++ (if r.final then ["final"] else ["interim"])
                 ++ (if old.isSome then ["existing"] else []) ++ (if preTmp ≠ "none" then ["stale-tmp"] else [])
@@ -891,7 +905,7 @@ def opC15Write : List String → Res
             let observed := rest.headD "-"
             let states := (List.range (ops.length + 1)).map fun k => applyOps fs0 (ops.take k)
             let hit := states.find? (fun fs => stateStr fs path == observed)
-            { m := match hit with | some _ => "killed;" ++ observed | none => "killed;NOT-A-PREFIX-STATE",
+            { m := if genBad then "TRANSLATED-WRITERESULT-DIFFERS-FROM-MODEL" else match hit with | some _ => "killed;" ++ observed | none => "killed;NOT-A-PREFIX-STATE",
               s := match hit with | some fs => if okState fs then "killed;" ++ observed else "killed;PROPERTY-VIOLATED" | none => "-",
               t := "kill" }
         | none => { m := "no-outfile" }
